@@ -19,7 +19,8 @@ CONSTANTS Family,     \* "event1" | "event2" | "raw" | "rawevent" | "join"
           TypesC,     \* subject types to enumerate
           Depth,      \* "core" | "full" | "extra" | "edge" | "none" (only the well-formed subject): class sets
           FieldSet,   \* "core": identifier / structure / content fields only; "edge": those plus numbers, signatures,
-                      \* pseudo-ID keys, spellings and a few duplicated keys; "full": every field
+                      \* pseudo-ID keys, spellings and a few duplicated keys; "full": every field (few duplicated
+                      \* keys); "all": every field and every duplicated key
           Entries,    \* the constructors that start a pipeline (ParseOps)
           MaxOps,     \* longest pipeline (operations, the parse included)
           Heavy,      \* heavy observers applied directly after the parse
@@ -37,17 +38,20 @@ TypesA == {"create", "member", "member_tpi"}
 TypesB == {"power_levels", "join_rules", "third_party_invite"}
 TypesC4 == {"redaction", "aliases", "history_visibility", "message"}
 HeavyAll == HeavyBase
+\* the heavy operations under normal callbacks without the duplicate / bare roles and the handlers (those are
+\* enumerated by the all-versions, well-formed and environment families)
+HeavyClassic == HeavyBase \ (ResolveDup \cup ResolveBare \cup HandlerOps \cup {"Resolve:backfill:all"})
 HeavyEnv == EnvOps
 HeavyEverything == HeavyOps
 \* the all-versions family: one representative of every kind of heavy operation, the new roles, handlers, and the
 \* callbacks answering nothing / failing
-HeavyEdge == {"VerifySignatures", "AuthCheck:provider", "Resolve:new:bare", "Resolve:new:dup", "Handle:Invite", "Perform:Invite",
+HeavyEdge == {"VerifySignatures", "AuthCheck:provider", "Resolve:new:bare", "Resolve:backfill:dup", "Handle:Invite", "Perform:Invite",
               "AuthCheck:event@qnil"}
 HeavyMid11 == {"VerifySignatures", "AuthCheck:event", "AuthCheck:provider", "AddToProvider", "Resolve:new:both", "Resolve:old:both",
                "Resolve:direct:both", "Resolve:topo_auth:all", "Resolve:checkstate:state", "Resolve:sendjoin:auth", "Resolve:load:all"}
 Heavy2 == {"AuthCheck:event", "Resolve:new:both"}
 Heavy8 == {"VerifySignatures", "AuthCheck:event", "AuthCheck:provider", "AddToProvider", "Resolve:new:both", "Resolve:direct:both",
-           "Resolve:checkstate:state", "Resolve:sendjoin:auth"}
+           "Resolve:checkstate:state"}
 VersionsFourQ == {"2", "5", "12", "org.matrix.msc4014"}
 EntriesAll == ParseOps
 EntriesUntrusted == {"Parse:untrusted"}
@@ -56,7 +60,7 @@ VersionsFive == {"2", "5", "11", "12", "org.matrix.msc4014"}
 HeavyLiteSet == HeavyLite
 HeavyMid == {"VerifySignatures", "AuthCheck:event", "AuthCheck:provider", "AddToProvider", "Resolve:new:both", "Resolve:old:both",
              "Resolve:direct:both", "Resolve:topo_auth:all", "Resolve:checkstate:state", "Resolve:sendjoin:auth", "Resolve:load:all",
-             "Resolve:new:bare", "Resolve:direct:dup", "Handle:Invite", "Handle:SendJoin", "Handle:MakeJoin"}
+             "Resolve:new:bare", "Resolve:direct:dup", "Resolve:backfill:dup", "Handle:Invite", "Handle:SendJoin", "Handle:MakeJoin"}
 Heavy3 == {"AuthCheck:event", "AuthCheck:provider", "Resolve:new:both"}
 VersionsTwo == {"5", "12"}
 VersionsPair == {"2", "12"}
@@ -82,7 +86,8 @@ FieldsC(v, t) ==
            {f \in Fields(v, t) : /\ f.grp \in EdgeGroups /\ (f \in DupFields => f \in EdgeDup)
                                   /\ (f.kind = "json" => f.path = "content")      \* of the JSON-valued fields only the content itself
                                   /\ (f.grp = "event_id" => EventFormat(v) = 1)}
-      [] OTHER -> Fields(v, t)
+      [] FieldSet = "full" -> Fields(v, t) \ (DupFields \ EdgeDup)     \* every field; of the duplicated keys a selection
+      [] OTHER -> Fields(v, t)                                         \* "all"
 
 SingleFaults(v, t) ==
     IF Depth = "none" THEN {}
@@ -166,7 +171,7 @@ InitRawEvent ==
     \E v \in Versions, t \in TypesC :
     \E f \in SingleFaults(v, t), op \in {"RedactJSON", "SignJSON", "Canonicalise:Enforced", Dec("ProtoEvent"),
                                         "Body:CheckStateResponse", "Body:SendJoin", "Body:Transaction", "Body:LoadAndVerify",
-                                        "Handle:InviteV3"} :
+                                        "Body:Backfill", "Handle:InviteV3"} :
        subject = [fam |-> "raw", ver |-> v, type |-> "event", f1 |-> f,
                   f2 |-> [path |-> t, kind |-> "none", grp |-> "none", cls |-> "none"], op |-> op]
 
